@@ -457,7 +457,7 @@ func c19MakeReply(m c19GMsg) container.VerifReply {
 
 func TestC19Gob(t *testing.T) {
 	rec := vh.NewRecorder(t, "C19", "exploration",
-		"framed part: sequences of 1..12 real protocol messages (cmd: ping, open batch, execve, oversize execve/open; reply: ok, error, exec result, batch, oversize batch) over the gob-framed layer of a fresh socket pair, with 0..3 descriptors, starting with or without a small first message of each type; oracle: every message whose SendMsg succeeded is received as an equal value with its descriptors, in order; an oversize message is rejected at the sender and the following messages still decode; one history in four ends with a frame (0..3 descriptors) that the receiver decodes as the other message type: it is rejected and its descriptors reach the caller with the error; the descriptor count returns to the baseline on every path; non-trivial = an oversize message followed by a normal one of the same type")
+		"framed part: sequences of 1..12 real protocol messages (cmd: ping, open batch, execve, oversize execve/open; reply: ok, error, exec result, batch, oversize batch) over the gob-framed layer of a fresh socket pair, with 0..3 descriptors, starting with or without a small first message of each type; oracle: every message whose SendMsg succeeded is received as an equal value with its descriptors, in order; an oversize message is rejected at the sender and the following messages still decode; one message in ten is replaced by an injected frame the decoder rejects (damaged bytes, trailing bytes behind a bad length prefix, type definitions sent again by a second wrapper; 0..2 descriptors): an error at that receive, and every later message arrives intact; one history in four ends with a frame (0..3 descriptors) that the receiver decodes as the other message type: it is rejected and its descriptors reach the caller with the error; the descriptor count returns to the baseline on every path; non-trivial = an oversize message followed by a normal one of the same type")
 	dir, err := vh.ScratchDir("c19g")
 	if err != nil {
 		t.Fatalf("INFRA: %v", err)
@@ -478,7 +478,12 @@ func TestC19Gob(t *testing.T) {
 				c.Msgs = append(c.Msgs, c19GMsg{Type: "reply", Kind: rapid.SampledFrom([]string{"ok", "err-reply", "exec-reply", "batch-reply", "big-batch"}).Draw(rt, "rk"), N: rapid.IntRange(0, 5000).Draw(rt, "n"), NFds: rapid.IntRange(0, 3).Draw(rt, "nfds")})
 			}
 		}
-		if last := &c.Msgs[len(c.Msgs)-1]; !strings.HasPrefix(last.Kind, "big-") && last.NFds <= 253 && rapid.IntRange(0, 3).Draw(rt, "mismatch") == 0 {
+		for i := range c.Msgs {
+			if rapid.IntRange(0, 9).Draw(rt, "garbage") == 0 {
+				c.Msgs[i] = c19GMsg{Type: c.Msgs[i].Type, Kind: "garbage", N: rapid.IntRange(0, 5999).Draw(rt, "gvariant"), NFds: rapid.IntRange(0, 2).Draw(rt, "gfds")}
+			}
+		}
+		if last := &c.Msgs[len(c.Msgs)-1]; last.Kind != "garbage" && !strings.HasPrefix(last.Kind, "big-") && last.NFds <= 253 && rapid.IntRange(0, 3).Draw(rt, "mismatch") == 0 {
 			last.Mismatch = true
 			if last.NFds == 0 {
 				last.NFds = rapid.IntRange(0, 3).Draw(rt, "mfds")
@@ -548,6 +553,49 @@ func TestC19Gob(t *testing.T) {
 		poisoned := map[string]bool{} // type whose first use was an oversize message (open known finding)
 		lastBig := map[string]bool{}
 		for i, m := range c.Msgs {
+			if m.Kind == "garbage" {
+				// a frame the decoder rejects (damaged, or type definitions it has seen already), optionally carrying
+				// descriptors: it is dropped whole - an error at this receive, and the messages behind it arrive intact
+				var fds []int
+				for k := 0; k < m.NFds; k++ {
+					fds = append(fds, int(mk.files[k%len(mk.files)].Fd()))
+				}
+				variant := m.N % 6
+				if variant == 5 && !(seenType["cmd"] && seenType["reply"]) {
+					variant = 0
+				}
+				a.SetWriteDeadline(time.Now().Add(3 * time.Second))
+				var serr error
+				switch variant {
+				case 0:
+					serr = a.SendMsg([]byte{0x7f, 0x13, 0x99, 0x01, 0x02, 0x03, 0xff, 0xfe, 0x10, 0x20, 0x30, 0x40, 0x50, 0x60}, unixsocket.Msg{Fds: fds})
+				case 1:
+					serr = a.SendMsg(append([]byte{0x03, 0xff, 0xff, 0xff}, []byte{0x05, 0xff, 0x82, 0x01, 0x07, 0x00, 0x05, 0xff, 0x82, 0x01, 0x07, 0x00}...), unixsocket.Msg{Fds: fds})
+				case 2:
+					serr = a.SendMsg(make([]byte, 64), unixsocket.Msg{Fds: fds})
+				case 3:
+					serr = a.SendMsg([]byte{0x20, 0x01}, unixsocket.Msg{Fds: fds})
+				case 4:
+					serr = a.SendMsg(bytes.Repeat([]byte{0xff, 0x81, 0x03, 0x01, 0x01}, 200), unixsocket.Msg{Fds: fds})
+				case 5:
+					// a second framed wrapper on the sender's socket sends its type definitions again
+					if m.Type == "cmd" {
+						serr = container.VerifNewSocket(a).SendMsg(c19MakeCmd(c19GMsg{Kind: "exec", N: m.N}), unixsocket.Msg{Fds: fds})
+					} else {
+						serr = container.VerifNewSocket(a).SendMsg(c19MakeReply(c19GMsg{Kind: "batch-reply", N: m.N}), unixsocket.Msg{Fds: fds})
+					}
+				}
+				if serr != nil {
+					return vh.Infraf("injecting a garbage frame: %v", serr)
+				}
+				_, gmsg, gerr := recv(m)
+				closeInts(gmsg.Fds)
+				if gerr != nil {
+					nt = true
+					rec.Class(fmt.Sprintf("frame-rejected-by-the-decoder(variant %d, %d descriptors), then more messages", variant, m.NFds), 1)
+				}
+				continue
+			}
 			big := strings.HasPrefix(m.Kind, "big-")
 			v, err := send(m)
 			if big {
